@@ -22,7 +22,6 @@ import (
 	"log"
 	"reflect"
 	"sort"
-	"strings"
 
 	"github.com/sirupsen/logrus"
 	gproto "google.golang.org/protobuf/proto"
@@ -352,9 +351,9 @@ func nfOfTerm(a any) nameFn {
 	var f func(string) string
 	switch t.Name {
 	case "nf_lower":
-		f = strings.ToLower
+		f = asciiMap('A', 'Z', 'a'-'A') // the harness's own naming function: byte-wise, as the model's nf_lower
 	case "nf_upper":
-		f = strings.ToUpper
+		f = asciiMap('a', 'z', -('a' - 'A'))
 	case "nf_camel":
 		f = apientry.ToLowerCamelCase
 	case "nf_const":
@@ -367,6 +366,18 @@ func nfOfTerm(a any) nameFn {
 		panic("c13: unknown naming function " + t.Name)
 	}
 	return nameFn{term: hx.C("Some", inner), fn: f}
+}
+
+func asciiMap(lo, hi byte, d int) func(string) string {
+	return func(s string) string {
+		b := []byte(s)
+		for i, c := range b {
+			if lo <= c && c <= hi {
+				b[i] = byte(int(c) + d)
+			}
+		}
+		return string(b)
+	}
 }
 
 func (n nameFn) apply(s string) string {
